@@ -191,7 +191,20 @@ def subject(case):
     record_on()
     try:
         try:
-            if case['role'] == 'instance':
+            if case['role'] == 'reopened-instance':
+                # a lazy resource re-opens its source for every iteration: the file is harmless at construction time and
+                # carries the payload when it is iterated; every opening has to be checked
+                with open(path, 'wb') as f:
+                    f.write(b'<root><a>clean</a></root>')
+                r = xmlschema.XMLResource(src, base_url=base_url, defuse=case['mode'], lazy=True)
+                with open(path, 'wb') as f:
+                    f.write(data)
+                texts = []
+                for e in r.iter():
+                    texts += [e.text or ''] + list(e.attrib.values())
+                out['result'] = 'parsed'
+                out['expanded'] = any(SECRET_MARK in t for t in texts)
+            elif case['role'] == 'instance':
                 r = xmlschema.XMLResource(src, base_url=base_url, defuse=case['mode'])
                 texts = [e.text or '' for e in r.root.iter()] + [v for e in r.root.iter() for v in e.attrib.values()]
                 out['result'] = 'parsed'
@@ -306,6 +319,12 @@ def gen(ctx):
                         if role != 'instance' and (k not in ('text', 'path', 'bytes') or p in ('utf16-clean', 'big-prolog-clean')):
                             continue
                         cases.append({'mode': m, 'kind': k, 'locality': l, 'payload': p, 'role': role})
+    for m in modes:
+        for k in ('path', 'file-url'):
+            for l in locs:
+                for p in pls:
+                    if p not in ('utf16-clean', 'big-prolog-clean', 'big-prolog'):
+                        cases.append({'mode': m, 'kind': k, 'locality': l, 'payload': p, 'role': 'reopened-instance'})
     if ctx.quick():
         cases = [c for c in cases if c['role'] == 'instance' or c['payload'] in ('internal', 'dtd-system', 'clean', 'parameter')]
     return cases
